@@ -157,7 +157,7 @@ def check_u7(s):
 
 def check_xt(b, form):
     bad = []
-    known_shape = form == "bytes" and (b"+" in b or b"=" in b)
+    known_shape = False    # the bytes-input '+'/'=' defect was fixed in /repo; no shape is special-cased any more
 
     def sig(kind):
         if known_shape:
